@@ -48,7 +48,7 @@ def swizzleOpnd (target : List Nat) (o : Opnd) : Except String Opnd := do
 def toCur (o : Opnd) : Cur Int := ⟨o.ids, o.t⟩
 
 def styleOf : String → Except String Style
-  | "and" => pure .tf | "tf" => pure .tf | "andr" => pure .tfr | "andh" => pure .tfr | "lf" => pure .lf | "lff" => pure .lff
+  | "and" => pure .tf | "tf" => pure .tf | "andr" => pure .tfr | "andh" => pure .tfr | "andi" => pure .tfr | "lf" => pure .lf | "lff" => pure .lff
   | s => throw s!"C06: unknown style {s}"
 
 /-- all assignments of `vars` over `U` (other variables 0) -/
@@ -82,7 +82,13 @@ def handleC06 (j : Json) : Except String Verdict := do
     match (← asList e) with
     | [v, s] => pure ((← v.getNat?), (← s.getInt?))
     | _ => throw "C06: tile")
-  let U : List Int := (List.range n).map (fun (i : Nat) => (i : Int))
+  -- coordinate universe: 0..n-1, or the listed coordinates (sparse multi-digit coordinates)
+  let U : List Int := match (j.getObjVal? "univ") with
+    | .ok (Json.arr a) => a.toList.filterMap (fun x => x.getInt?.toOption)
+    | _ => (List.range n).map (fun (i : Nat) => (i : Int))
+  let var := (j.getObjVal? "var").toOption.getD Json.null
+  let reps := ((var.getObjVal? "reps").toOption.bind (fun x => x.getNat?.toOption)).getD 1
+  let okU := U.all (fun c => 0 ≤ c && c < (n : Int)) && sortedB (U.map (fun c => (c, ())))
   -- original operands
   let orig ← (← fArr j "ops").mapM (fun o => do
     let ranks ← (← fArr o "ranks").mapM (·.getNat?)
@@ -97,7 +103,7 @@ def handleC06 (j : Json) : Except String Verdict := do
     && o.ids.all (fun i => i / 2 < nv))
   let okCover := (List.range nv).all (fun v => orig.any (fun o => o.ids.contains (2 * v)))
   let okTiles := tiles.all (fun t => t.2 > 0 && t.1 < nv) && (tiles.map (·.1)).eraseDups.length == tiles.length
-  if !(okOrder && okOps && okCover && okTiles && out.all (· < nv) && !orig.isEmpty) then
+  if !(okOrder && okOps && okCover && okTiles && okU && (reps == 1 || reps == 2) && out.all (· < nv) && !orig.isEmpty) then
     return { agree := true, spec := true, tags := ["OUT_OF_MODEL"] }
   -- model pipeline: tile, swizzle
   let prepared ← orig.mapM (fun o => do
@@ -105,7 +111,9 @@ def handleC06 (j : Json) : Except String Verdict := do
     swizzleOpnd (order.filter (o1.ids.contains ·)) o1)
   let zr := order.filter (fun l => out.contains (l / 2))
   let z0 : T zr.length := defaultTree (0 : Int) zr.length
-  let zm := run style order (prepared.map toCur) zr z0
+  let zm1 := run style order (prepared.map toCur) zr z0
+  -- reps = 2: the program is executed a second time on the same output (kernel_denote with a non-empty z)
+  let zm := if reps == 2 then run style order (prepared.map toCur) zr zm1 else zm1
   -- implementation's observation
   let impl ← field j "impl"
   let implOps ← fArr impl "ops"
@@ -118,7 +126,7 @@ def handleC06 (j : Json) : Except String Verdict := do
   let vars := (List.range nv).map (2 * ·)
   let σ0 : Nat → Int := fun _ => 0
   let cands := ((sortLex ((assigns U vars).map (fun σ => (zpt σ, ())))).map (·.1)).eraseDups
-  let expected := denseOn U vars (orig.map toCur) zpt σ0 cands
+  let expected := (denseOn U vars (orig.map toCur) zpt σ0 cands).map (fun pv => (pv.1, pv.2 * (reps : Int)))
   let cancel := cands.any (fun q => einsum U vars (orig.map toCur) zpt q σ0 == 0 &&
     (assigns U vars).any (fun σ => zpt σ == q && prodVal (orig.map toCur) σ != 0))
   let pc := partCounts order (prepared.map (·.ids))
@@ -126,6 +134,17 @@ def handleC06 (j : Json) : Except String Verdict := do
     (if pc.any (· == 2) then ["coiter2"] else []) ++ (if pc.any (· ≥ 3) then ["coiter3"] else []) ++
     (if zr.isEmpty then ["scalar-out"] else ["populate"]) ++
     (if tiles.isEmpty then [] else ["tiled"]) ++
+    (let has := fun (k : String) => match var.getObjVal? k with
+        | .ok (Json.arr a) => a.any (fun x => match x with | Json.arr b => !b.isEmpty | Json.null => false | _ => true)
+        | .ok (Json.bool b) => b
+        | .ok (Json.str s) => s != "int"
+        | .ok (Json.num m) => m != 0 && m != 1
+        | _ => false
+     (if has "fmtU" then ["operand-format-U"] else []) ++ (if has "zU" then ["output-format-U"] else []) ++
+     (if has "bare" then ["bare-fiber-operands"] else []) ++ (if has "shapes" then ["own-declared-shapes"] else []) ++
+     (if has "fdefault" then ["fiber-default-differs"] else []) ++ (if has "reps" then ["accumulate-twice"] else []) ++
+     (if has "warm" then ["operands-reused"] else []) ++ (if has "vkind" then ["float-or-bool-values"] else [])) ++
+    (match (j.getObjVal? "univ") with | .ok (Json.arr _) => ["multi-digit-coordinates"] | _ => []) ++
     (match (j.getObjVal? "declared") with | .ok (Json.bool false) => ["shape-estimated"] | _ => []) ++
     (if pc.any (· ≥ 3) && style == .tfr then ["lazy-right-operand"] else []) ++
     (if tiles.any (fun t => out.contains t.1) then ["tiled-out"] else []) ++
